@@ -203,6 +203,28 @@ def landed (s : VF) (link : Nat) (cur : Cur) (os : OStream) (po : Int) : VF :=
   let s0 : VF := { s with offset := cur.off, fill := cur.fill, current_link := link, current_serialno := s.serialnos[link]!, os := os, pcm_offset := po }
   { s0 with ready := INITSET, lapped := false, vd := some (freshDec s0) }
 
+/-- the run-time check the driver performs on every reached state is exactly the hypothesis `DecWF` -/
+theorem decWFb_iff (s : VF) : decWFb s = true ↔ DecWF s := by
+  unfold decWFb DecWF LinkWF
+  simp only [Bool.and_eq_true, Bool.or_eq_true, decide_eq_true_eq]
+  constructor
+  · rintro ⟨⟨h1, h2⟩, h3⟩
+    refine ⟨fun hr => ?_, fun hr => ?_, h3⟩
+    · rcases h1 with h | h
+      · omega
+      · exact h
+    · rcases h2 with h | h
+      · omega
+      · exact h
+  · rintro ⟨h1, h2, h3⟩
+    refine ⟨⟨?_, ?_⟩, h3⟩
+    · by_cases c : s.ready < STREAMSET
+      · exact Or.inl c
+      · exact Or.inr (h1 (by omega))
+    · by_cases c : s.ready ≤ STREAMSET
+      · exact Or.inl c
+      · exact Or.inr (h2 (by omega))
+
 theorem land_ready (s : VF) (w : DecWF s) (link : Nat) (cur : Cur) (os : OStream) (po : Int) :
     (makeDecodeReady.run { (selectLinkF link { s with offset := cur.off, fill := cur.fill }) with os := os, pcm_offset := po }) =
       (0, landed s link cur os po) := by
